@@ -556,8 +556,10 @@ def execute(spec):
     if spec.get('prefault'):
         return dict(steps=1, counters={}, nontrivial=False, digest=core.digest_of([tree, width, 'prefault']),
                     base_text=base[0], base_warnings=[w[2] for w in base[1]], **{'class': None})
-    if 'max_seq_len' in SETTINGS and 'depth' not in SETTINGS:
-        # elements beyond max_seq_len are not shown, so their printers have no business running (and failing)
+    if 'max_seq_len' in SETTINGS and 'depth' not in SETTINGS and "'ref'" not in repr(tree):
+        # elements beyond max_seq_len are not shown, so their printers have no business running (and failing).
+        # (trees with shared references are left out: a reference at a visible position shows a subtree that
+        # was built under a hidden one)
         seen = {}
         for oid, vis in OCC:
             seen.setdefault(oid, []).append(vis)
